@@ -1306,15 +1306,41 @@ def run_golden(ctx, model, case):
 
 
 # =============================================================================================
+# the CG back end as selected in ADMM (LinearSubproblemSolver, scico or jax): the arguments a solver object runs CG with are the
+# documented defaults updated by ITS OWN cg_kwargs, whatever solver objects were built before (seeded C14-n1); the stream is
+# shared with the C10 adapter (same driver)
 
-RUNNERS = {"cg": run_cg, "jaxcg": run_jaxcg, "cgscan": run_cgscan, "lstsq": run_lstsq, "atad": run_atad, "atadargs": run_atadargs, "conv": run_conv, "relres": run_relres,
+
+def gen_kwhist(rng):
+    import c10
+
+    return c10.gen_kwhist(rng)
+
+
+def run_kwhist(ctx, model, case):
+    import c10
+
+    c10._setup()
+    c10.run_kwhist(ctx, model, case)
+
+
+def oracle_kwhist(case):
+    import c10
+
+    c10._setup()
+    return c10.oracle_kwhist(case)
+
+
+# =============================================================================================
+
+RUNNERS = {"kwhist": run_kwhist, "cg": run_cg, "jaxcg": run_jaxcg, "cgscan": run_cgscan, "lstsq": run_lstsq, "atad": run_atad, "atadargs": run_atadargs, "conv": run_conv, "relres": run_relres,
            "bisect": run_bisect, "golden": run_golden}
-GENS = {"cg": gen_cg, "jaxcg": gen_jaxcg, "cgscan": gen_cgscan, "lstsq": gen_lstsq, "atad": gen_atad, "atadargs": gen_atadargs, "conv": gen_conv, "relres": gen_relres,
+GENS = {"kwhist": gen_kwhist, "cg": gen_cg, "jaxcg": gen_jaxcg, "cgscan": gen_cgscan, "lstsq": gen_lstsq, "atad": gen_atad, "atadargs": gen_atadargs, "conv": gen_conv, "relres": gen_relres,
         "bisect": gen_bisect, "golden": gen_golden}
-ORACLES = {"cg": oracle_cg, "jaxcg": oracle_jaxcg, "cgscan": oracle_cgscan, "lstsq": oracle_lstsq, "atad": oracle_atad, "conv": oracle_conv,
+ORACLES = {"kwhist": oracle_kwhist, "cg": oracle_cg, "jaxcg": oracle_jaxcg, "cgscan": oracle_cgscan, "lstsq": oracle_lstsq, "atad": oracle_atad, "conv": oracle_conv,
            "bisect": oracle_bisect, "golden": oracle_golden}
 # (quick, thorough) number of generated cases per stream
-BUDGET = {"cg": (120, 1500), "jaxcg": (40, 400), "cgscan": (25, 250), "lstsq": (30, 300), "atad": (90, 1000), "atadargs": (20, 60), "conv": (40, 400), "relres": (30, 200),
+BUDGET = {"kwhist": (8, 60), "cg": (120, 1500), "jaxcg": (40, 400), "cgscan": (25, 250), "lstsq": (30, 300), "atad": (90, 1000), "atadargs": (20, 60), "conv": (40, 400), "relres": (30, 200),
           "bisect": (60, 700), "golden": (50, 600)}
 
 
@@ -1332,8 +1358,14 @@ def correspond(ctx, model):
         if only and kind not in only.split(","):
             continue
         q, t = BUDGET[kind]
-        for _ in range(ctx.n(q, t)):
-            case = gen(ctx.rng)
+        for i in range(ctx.n(q, t)):
+            if kind == "kwhist":
+                import c10
+
+                want = c10.STRATA["kwhist"]
+                case = c10._gen_where(gen, ctx.rng, want[i]) if i < len(want) else gen(ctx.rng)
+            else:
+                case = gen(ctx.rng)
             RUNNERS[kind](ctx, model, case)
     if only:
         # a restricted run is a debugging aid only: it can print VIOLATION lines but can never be reported as "held"
